@@ -350,6 +350,60 @@ def unit_children_bp(U):
             okcall = st["calls"].get("children", {}).get("featuretype") == "exon" and st["calls"].get("children", {}).get("order_by") == "start" and (("merge" in st["calls"]) == merge)
             U.prove("C16.children_bp[merge=%s]#p%d" % (merge, p.index), "children_bp == sum of len(child) over children(feature, child_featuretype, order_by='start') (over merge(...) of them with merge=True)",
                     p.pc, z3.And(p.value.e == total, z3.BoolVal(okcall)) if ok else z3.BoolVal(False), {})
+    # the criteria are INPUTS: a caller's list is handed to merge() as it is and is left as it was; the defaults of merge /
+    # merge_all / children_bp are the four documented criteria after any call (several child featuretypes included)
+    import inspect
+    DEFAULT4 = [MC.seqid, MC.overlap_end_inclusive, MC.strand, MC.feature_type]
+    for cft, own in itertools.product(("exon", ("exon", "CDS"), None), (False, True)):
+        def run3(ctx, cft=cft, own=own):
+            kids = [blank_feature(start=SInt(z3.Int("k%d.start" % i)), end=SInt(z3.Int("k%d.end" % i))) for i in range(2)]
+            for k in kids:
+                ctx.assume(k.start.e <= k.end.e)
+            calls = {}
+
+            def mergec(interp, args, kwargs):
+                mcrit = kwargs.get("merge_criteria", args[2] if len(args) > 2 else None)
+                calls["merge"] = (mcrit, None if mcrit is None else list(mcrit))
+                return iter(kids[:1])
+            it.contracts[I.FeatureDB.children] = lambda interp, a, k: iter(kids)
+            it.contracts[I.FeatureDB.merge] = mergec
+            crit = [MC.seqid, MC.feature_type]
+            kw = {"merge": True, "child_featuretype": cft}
+            if own:
+                kw["merge_criteria"] = crit
+            r = it.call(I.FeatureDB.children_bp, [blank_db(), "x"], kw)
+            dflt = {}
+            for fn in (I.FeatureDB.merge, I.FeatureDB.merge_all, I.FeatureDB.children_bp):
+                d = inspect.signature(fn).parameters["merge_criteria"].default
+                dflt[fn.__name__] = list(d) if isinstance(d, (list, tuple)) else d
+            ctx.stash.update(calls=calls, crit=crit, dflt=dflt)
+            return r
+
+        def replay3(m):
+            mk = lambda i, ft, s, e: F.Feature(seqid="c", source="s", featuretype=ft, start=s, end=e, strand="+", attributes={"ID": [i], "Parent": ["g"]})
+            g = F.Feature(seqid="c", source="s", featuretype="gene", start=1, end=100, strand="+", attributes={"ID": ["g"]})
+            db = gffutils.create_db([g, mk("e1", "exon", 1, 50), mk("c1", "CDS", 10, 60), mk("e2", "exon", 40, 80)], ":memory:")
+            crit = [MC.seqid, MC.overlap_end_inclusive, MC.strand, MC.feature_type]
+            before = list(crit)
+            first = [(o.start, o.end, o.featuretype) for o in db.merge(list(db.children("g", order_by=("featuretype", "start"))))]
+            db.children_bp("g", child_featuretype=("exon", "CDS"), merge=True)
+            db.children_bp("g", child_featuretype=("exon", "CDS"), merge=True, merge_criteria=crit)
+            again = [(o.start, o.end, o.featuretype) for o in db.merge(list(db.children("g", order_by=("featuretype", "start"))))]
+            return {"inputs": "exon 1-50, CDS 10-60, exon 40-80 under g; merge by default criteria, children_bp(g, ('exon', 'CDS'), merge=True) with default and with own criteria, merge again",
+                    "expected": [first, before], "observed": [again, crit], "violates": again != first or crit != before}
+        for p in U.explore(run3, it):
+            st = p.ctx.stash
+            ok = p.kind == "return"
+            if ok:
+                got, got_copy = st["calls"].get("merge", (None, None))
+                if own:
+                    ok = st["crit"] == [MC.seqid, MC.feature_type] and got_copy == [MC.seqid, MC.feature_type]
+                else:
+                    ok = got_copy is None or got_copy == DEFAULT4
+                ok = ok and all(v == DEFAULT4 for v in st["dflt"].values())
+            U.prove("C16.children_bp.criteria[types=%s,%s]#p%d" % ("one" if cft == "exon" else ("several" if cft else "all"), "own" if own else "default", p.index),
+                    "the merge criteria reach merge() as given (the four documented ones by default) whatever child featuretypes are asked for; a caller's list is not edited; the defaults of merge / merge_all / children_bp are unchanged afterwards",
+                    [], z3.BoolVal(bool(ok)), {}, replay=replay3)
     for kw in ({"ignore_strand": True}, {"bogus": 1}):
         def run2(ctx, kw=kw):
             return it.call(I.FeatureDB.children_bp, [blank_db(), "x"], dict(kw))
